@@ -319,10 +319,14 @@ class Mini:
                 if isinstance(ex, IndexError):
                     raise Raised('IndexError', e)
                 raise Unsupported('subscript on ' + repr(o))
-        if isinstance(e, ast.Tuple):
-            return tuple(self.expr(x, env) for x in e.elts)
-        if isinstance(e, ast.List):
-            return [self.expr(x, env) for x in e.elts]
+        if isinstance(e, (ast.Tuple, ast.List)):
+            out = []
+            for x in e.elts:
+                if isinstance(x, ast.Starred):
+                    out += list(self.iterate(self.expr(x.value, env)))
+                else:
+                    out.append(self.expr(x, env))
+            return tuple(out) if isinstance(e, ast.Tuple) else out
         if isinstance(e, ast.Set):
             return {self.expr(x, env) for x in e.elts}
         if isinstance(e, ast.Dict):
